@@ -1,7 +1,7 @@
 // Command c05 executes circuit-breaker scenarios (C05, C12, C18) against the real cbreaker package.
 //
 //	cfg fb=<ns> rec=<ns> cp=<ns> go=<condition in Go syntax, '~' for a space> qs=<quantile literals, comma separated> [px=… model only]
-//	    [verbose=1] [fbk=custom|default|resp|redir] [fx=0: no OnTripped/OnStandby registered, `effects` -> effects none]
+//	    [verbose=1] [fbk=custom|default|resp|redir] [fx=0: no OnTripped/OnStandby registered, `effects` -> effects none; fx=fail|failtrip|failstandby: the effect counts, then returns an error]
 //	    (the Logger option always carries the parking logger)
 //	at <ns> | adv <ns>            -> ok
 //	start <id>                    -> pass <state> | fallback <state>   (pass: the request is now blocked inside the protected handler)
@@ -56,9 +56,19 @@ type flight struct {
 	start   time.Time
 }
 
-type effect struct{ n *int64 }
+// effect counts its executions; a failing one acts (counts) and then reports an error.
+type effect struct {
+	n    *int64
+	fail bool
+}
 
-func (e effect) Exec() error { atomic.AddInt64(e.n, 1); return nil }
+func (e effect) Exec() error {
+	atomic.AddInt64(e.n, 1)
+	if e.fail {
+		return fmt.Errorf("side effect acted, then failed")
+	}
+	return nil
+}
 
 type h struct {
 	cb        *cbreaker.CircuitBreaker
@@ -81,10 +91,12 @@ const parkProbe = 25 * time.Millisecond
 // parkLogger is given to the breaker through the Logger option; its Warn parks a request on demand.
 type parkLogger struct{ s *h }
 
-func (l *parkLogger) Debug(string, ...any) {}
-func (l *parkLogger) Info(string, ...any)  {}
-func (l *parkLogger) Error(string, ...any) {}
-func (l *parkLogger) Warn(msg string, _ ...any) {
+// every message is formatted, as a real logger would do (the arguments' String methods run)
+func (l *parkLogger) Debug(msg string, a ...any) { _ = fmt.Sprintf(msg, a...) }
+func (l *parkLogger) Info(msg string, a ...any)  { _ = fmt.Sprintf(msg, a...) }
+func (l *parkLogger) Error(msg string, a ...any) { _ = fmt.Sprintf(msg, a...) }
+func (l *parkLogger) Warn(msg string, a ...any) {
+	_ = fmt.Sprintf(msg, a...)
 	if !strings.Contains(msg, "is in error state") || atomic.LoadInt32(&l.s.armed) <= 0 {
 		return
 	}
@@ -463,10 +475,12 @@ func main() {
 		default:
 			opts = append(opts, cbreaker.Fallback(http.HandlerFunc(fallback)))
 		}
-		if v, _ := hx.KV(cfg, "fx"); v == "0" {
+		switch v, _ := hx.KV(cfg, "fx"); v {
+		case "0":
 			s.noFx = true
-		} else {
-			opts = append(opts, cbreaker.OnTripped(effect{&s.nTripped}), cbreaker.OnStandby(effect{&s.nStandby}))
+		default: // "", "fail", "failtrip", "failstandby": the counters must not depend on what Exec returns
+			opts = append(opts, cbreaker.OnTripped(effect{&s.nTripped, v == "fail" || v == "failtrip"}),
+				cbreaker.OnStandby(effect{&s.nStandby, v == "fail" || v == "failstandby"}))
 		}
 		cb, err := cbreaker.New(http.HandlerFunc(s.next), expr, opts...)
 		if err != nil {
